@@ -201,6 +201,8 @@ static void c04_case(uint64_t idx)
 	if (reused) { spec.warm_in = g_orig.p; spec.warm_n = g_orig.n; hx_count("reused_handle_cases", 1); }
 	alloc_mon mon; alloc_mon_init(&mon);
 	mon.huge_limit = 300u << 20;
+	// in a third of the reused-handle cases one allocation of the first life fails (the second life must not notice)
+	if (reused && vrng_chance(&r, 1, 3)) { spec.warm_mon = &mon; spec.warm_fail_at = 1 + (int)vrng_below(&r, 14); hx_count("reused_handle_first_life_alloc_failure", 1); }
 	hx_sample("c04 %s%s%s dec=%s flags=0x%x memlimit=%" PRIu64 " slicing=%s/%zu/%zu fin=%d outlimit=%zu", g.desc, mdesc[0] ? " MUT:" : "", mdesc,
 			d_names[kind], spec.flags, spec.memlimit, slice_mode_name(p.mode), p.max_in, p.max_out, (int)p.final_action, p.out_limit);
 	dec_result d;
